@@ -149,9 +149,27 @@ pub fn main(args: &[String], w: &mut dyn Write) {
     let seed: u64 = args[1].parse().unwrap();
     let (shard, nsh): (u64, u64) = (args[2].parse().unwrap(), args[3].parse().unwrap());
     let mut r = Rng::new(seed.wrapping_add(shard * 15485863));
-    for _ in 0..(count / nsh) {
+    for k in 0..(count / nsh) {
         let tmp = tempfile::Builder::new().prefix("svh-exec.").tempdir().unwrap();
-        let c = gen_case(&mut r);
+        let mut c = gen_case(&mut r);
+        if k == 0 || (k % 400 == 0) {
+            // real elapsed time: an early test case takes 1.5 s; a later one has a timeout that lies between what is
+            // left of the document limit and the whole document limit (or safely below what is left)
+            let total = 4500 + 1000 * r.below(4);
+            let mut doc = DocumentConfig::empty();
+            doc.total_timeout = Some(Duration::from_millis(total));
+            let n = r.range(2, 4);
+            let slow = r.range(0, n - 2);
+            let probe = r.range(slow + 1, n - 1);
+            let mut tcs = vec![];
+            for i in 0..n {
+                let mut cfg = TestCaseConfig::empty();
+                if i == probe { cfg.timeout = Some(Duration::from_millis(if r.chance(2, 3) { total - 750 } else { total - 2500 })); }
+                let st = if i == probe && r.chance(1, 2) { St::Timeout } else { St::Code(0) };
+                tcs.push((cfg, st, if i == slow { 1500 } else { 0 }));
+            }
+            c = ExecCase { tcs, doc };
+        }
         writeln!(w, "{}", run_exec(&c, tmp.path())).unwrap();
     }
 }
